@@ -312,7 +312,9 @@ macro "ig_ret" i:ident : tactic => `(tactic| first
   | (refine InvG.of_gcore ?_ (InvG.noBusy_emit $i (.ret ?u .eoq) rfl); rfl)
   | (refine InvG.of_gcore ?_ (InvG.noBusy_emit $i (.ret ?u .cancelled) rfl); rfl)
   | (refine InvG.of_gcore ?_ (InvG.noBusy_emit $i (.ret ?u .refused) rfl); rfl)
-  | (refine InvG.of_gcore ?_ (InvG.drop_held_emit $i (.ret ?u .cancelled) rfl); rfl))
+  | (refine InvG.of_gcore ?_ (InvG.drop_held_emit $i (.ret ?u .cancelled) rfl); rfl)
+  | (refine InvG.of_gcore ?_ (InvG.drop_held_emit $i (.ret ?u .eoq) rfl); rfl)
+  | (refine InvG.of_gcore ?_ (InvG.drop_held_emit $i (.ret ?u .refused) rfl); rfl))
 
 theorem stepRun_InvG {cfg : Cfg} {s : St} (i : InvG s) (t : Tid) : InvG (stepRun cfg s t) := by
   unfold stepRun
